@@ -24,6 +24,9 @@ Definition sector_ok (s : sector) (n : N) : Prop :=
 Definition TblOk (tbl : gmap N sector) (X : gset N) : Prop :=
   forall n, n ∈ X -> exists s, tbl !! n = Some s /\ sector_ok s n.
 
+(* the table is keyed by sector number (Sectors::store does that) *)
+Definition tbl_keyed (tbl : gmap N sector) : Prop := forall n s, tbl !! n = Some s -> s_num s = n.
+
 (* one entry of the expiration queue, relative to the fault set F *)
 Record ExpSetInv (qs : quant) (tbl : gmap N sector) (F : gset N) (k : Z) (es : expset) : Prop := {
   ei_quant : quant_up qs k = k;
@@ -54,6 +57,7 @@ Record ETInv (T : gset N) (et : bfqueue) : Prop := {
 
 Record PartInv (qs : quant) (tbl : gmap N sector) (p : partition) : Prop := {
   pi_unit : 0 < q_unit qs;
+  pi_keyed : tbl_keyed tbl;
   pi_tbl : TblOk tbl (live_sectors p);
   (* nesting and exclusion of the bitfields *)
   pi_rec_faults : recoveries p ⊆ faults p;
